@@ -304,3 +304,48 @@ func Globals() map[string]map[string]interface{} {
 	}
 	return out
 }
+
+// ---- sync.Pool ----
+//
+// What a sync.Pool hands back depends on the processor a goroutine runs on and
+// on garbage collections: it is a source of nondeterminism like any other. Under
+// the simulator a pool is a plain LIFO stack: whatever was put last is reused
+// first, always (the legal behaviour that exposes stale state most reliably).
+
+// PoolSim switches the simulated pools on (set by the simulator).
+var PoolSim bool
+
+var (
+	poolMu   sync.Mutex
+	simPools = map[*sync.Pool][]interface{}{}
+)
+
+func PoolGet(p *sync.Pool) interface{} {
+	if !PoolSim {
+		return p.Get()
+	}
+	probe("sync.Pool.Get")
+	poolMu.Lock()
+	st := simPools[p]
+	if n := len(st); n > 0 {
+		v := st[n-1]
+		simPools[p] = st[:n-1]
+		poolMu.Unlock()
+		return v
+	}
+	poolMu.Unlock()
+	if p.New != nil {
+		return p.New()
+	}
+	return nil
+}
+
+func PoolPut(p *sync.Pool, v interface{}) {
+	if !PoolSim {
+		p.Put(v)
+		return
+	}
+	poolMu.Lock()
+	simPools[p] = append(simPools[p], v)
+	poolMu.Unlock()
+}
